@@ -53,6 +53,8 @@ func VrfC07Auth() {
 	cfg := &Config{RPCPolicy: DefaultRPCPolicy}
 	c := &Cluster{ctx: context.Background(), config: cfg, consensus: cons, ipfs: &vrfIPFS{},
 		monitor: &vrfMonitor{}}
+	// tracing only adds a stats handler: the authorisation must be the same with it
+	c.config.Tracing = vrf_choice("tracing", 2) == 1
 	srv, err := newRPCServer(c)
 	vrf_assert(err == nil && srv != nil, "C07.auth.server-built")
 	svc := vrf_nondet_string("service")
